@@ -1,17 +1,17 @@
-SPECIFICATION Spec
+SPECIFICATION SimSpec
 CONSTANTS
-  NVB = 1
+  NVB = 2
   InitLog <- EmptyLog
-  MaxSeq = 2
+  MaxSeq = 3
   Keys = {"user"}
-  Kinds = {"mut", "adv"}
+  Kinds = {"mut", "sys", "adv"}
   OldEvents = FALSE
   BadEvents = FALSE
   FoUuid <- Fo10
   Savers = {"p"}
-  MaxSaves = 0
+  MaxSaves = 1
   MaxCrash = 0
-  MaxAcks = 0
+  MaxAcks = 2
   MaxGen = 2
   MaxNotify = 0
   MaxEnds = 0
@@ -27,18 +27,18 @@ CONSTANTS
   Rollbacks = FALSE
   FailSaves = FALSE
   Focus = TRUE
-  Record = FALSE
+  Record = TRUE
   ReadOnly = FALSE
   RM = TRUE
-  Slots = 2
+  Slots = 3
   RmUuids = {1, 2}
-  RmMonotone = FALSE
+  RmMonotone = TRUE
   Scrapes = FALSE
   HookScrapes = FALSE
   Marking = FALSE
-  WindAt = 0
+  WindAt = 36
   Gaps = {}
   Bugs = {}
-VIEW view
-INVARIANTS C07 C16 C01 C02 C03 C04 C05 C06 C08 C11 C12 C13 C14 C15 StoreAgrees
+  D = 50
+INVARIANTS DumpSched
 CHECK_DEADLOCK FALSE
